@@ -176,7 +176,83 @@ fn write_parquet_rg(path: &Path, data: &Vec<Rec>, rg: usize) -> anyhow::Result<(
     Ok(())
 }
 
+/// Shape of a well-formed input per kind: u = unsigned int, i = signed int, o = unsigned int or
+/// null, b = bool, s = string, a = array. Anything else (e.g. a candidate of check.py's shrinker)
+/// is answered with ["invalid"] instead of a harness panic.
+fn valid(kind: &str, input: &Value) -> bool {
+    let sig = match kind {
+        "jl" => "auuu",
+        "js" => "uuuuuu",
+        "jw" => "uuou",
+        "cs" => "uubuuuu",
+        "cw" => "uubou",
+        "ps" => "uuuuuu",
+        "gl" => "ubuau",
+        "jf" => "i",
+        "jb" => "uu",
+        "jz" => "uusouuuu",
+        "cz" => "uusbouuuu",
+        _ => return false,
+    };
+    let Some(arr) = input.as_array() else { return false };
+    if arr.len() != sig.len() {
+        return false;
+    }
+    let shape_ok = arr.iter().zip(sig.chars()).all(|(v, c)| match c {
+        'u' => v.is_u64(),
+        'i' => v.is_i64(),
+        'o' => v.is_u64() || v.is_null(),
+        'b' => v.is_boolean(),
+        's' => v.is_string(),
+        _ => v.is_array(),
+    });
+    if !shape_ok {
+        return false;
+    }
+    match kind {
+        "jl" => arr[0].as_array().unwrap().iter().all(|it| {
+            it.as_array().is_some_and(|p| p.len() == 2 && p[0].is_string() && p[1].as_u64().is_some_and(|e| e <= 2))
+        }),
+        "gl" => {
+            // no entry may be a (non-strict) prefix of another one: a file cannot also be a directory
+            let paths: Vec<Vec<&str>> = arr[3]
+                .as_array()
+                .unwrap()
+                .iter()
+                .filter_map(|f| f.get(0)?.as_array().map(|cs| cs.iter().filter_map(Value::as_str).collect()))
+                .collect();
+            let clash = paths
+                .iter()
+                .enumerate()
+                .any(|(i, a)| paths.iter().enumerate().any(|(j, b)| i != j && b.starts_with(a)));
+            !clash
+                && arr[0].as_u64().unwrap() <= 2
+                && arr[2].as_u64().unwrap() <= 2
+                && arr[3].as_array().unwrap().iter().all(|f| {
+                    f.as_array().is_some_and(|p| {
+                        p.len() == 2
+                            && p[1].as_i64().is_some_and(|c| (-1..=1000).contains(&c))
+                            && p[0].as_array().is_some_and(|cs| {
+                                !cs.is_empty()
+                                    && cs.iter().all(|c| {
+                                        c.as_str().is_some_and(|c| {
+                                            !c.is_empty() && c != "." && c != ".." && !c.contains(['/', '*', '?', '[', '\0'])
+                                        })
+                                    })
+                            })
+                    })
+                })
+        }
+        "jf" => arr[0].as_i64().unwrap().abs() < (1 << 53),
+        "jb" => arr.iter().all(|v| v.as_u64().unwrap() < (1 << 32)),
+        _ => arr[0].as_u64().unwrap() <= 100_000,
+    }
+}
+
 fn run(kind: &str, input: &Value) -> Value {
+    if !valid(kind, input) {
+        return json!(["invalid"]);
+    }
     let sc = Scratch::new();
     match kind {
         "jl" => {
